@@ -334,7 +334,9 @@ def r3_codec_table(ck, F):
     for v, lst in td.items():
         for s, n, t_ in lst[:1]:
             a = deco.arg_exprs(s)
-            ck.ob(R, f"decompress-helper-args/{v}", is_arg(a[0], deco.arg_name(2)) and is_arg(a[1], deco.arg_name(3)), f"{n}({', '.join(x.show() for x in a)})", deco, s)
+            # the helper receives the function's own reader (possibly behind an adapter built around it) and its own output buffer
+            own_reader = a[0].mentions_arg(deco.arg_name(2)) and not any(x.k == "arg" and x.x.get("name") != deco.arg_name(2) for x in a[0].walk())
+            ck.ob(R, f"decompress-helper-args/{v}", own_reader and is_arg(a[1], deco.arg_name(3)), f"{n}({', '.join(x.show() for x in a)})", deco, s)
     # from_u8 is the inverse of `as u8` on all 256 inputs
     fu = F.body(A("from_u8"))
     discr = {int(v["discr"]): v["name"] for v in enum["variants"]}
